@@ -228,8 +228,22 @@ Take(f, fx, ev) ==
      IN v' = [r.v EXCEPT !.lf = [ty |-> f.ty, sid |-> f.sid], !.allowed = al, !.obs = r.o, !.judged = TRUE, !.nf = v.nf + 1]
   /\ hist' = Append(hist, ev)
 
+\* "wf" in Ops restricts the peer to well-formed traffic: legal frame sequences per stream, increasing ids,
+\* at most MaxConcM concurrent streams, bodies within the limit and equal to a declared content-length.
+WF == "wf" \in Ops
+WfHeaders(sid, es, eh, cl) ==
+  LET x == v.s[sid] IN
+  /\ v.hb = 0
+  /\ IF x.st = "none" THEN sid > v.lastID /\ v.open < MaxConcM /\ ~v.closing /\ (es => cl <= 0)
+     ELSE x.st = "open" /\ x.hdrDone /\ es /\ cl = -1 /\ (x.cl < 0 \/ x.cl = x.recv)
+WfData(sid, n, es) ==
+  LET x == v.s[sid] IN
+  /\ v.hb = 0 /\ x.st = "open" /\ x.hdrDone /\ x.recv + n <= MaxBodyM
+  /\ (x.cl >= 0 => (IF es THEN x.cl = x.recv + n ELSE x.recv + n <= x.cl))
+
 PeerHeaders == \E sid \in Sids, es \in BOOLEAN, eh \in BOOLEAN, k \in {"ok", "bad", "cl1", "cl3"} :
   /\ "hdr" \in Ops
+  /\ (WF => WfHeaders(sid, es, eh, IF k = "cl1" THEN 1 ELSE IF k = "cl3" THEN 3 ELSE -1))
   /\ (k = "bad" => "bad" \in Ops) /\ (k \in {"cl1", "cl3"} => "cl" \in Ops) /\ (~eh => "cont" \in Ops)
   /\ LET f == Frame(T_HEADERS, sid, es, eh, 0, -1, 1)
          cl == IF k = "cl1" THEN 1 ELSE IF k = "cl3" THEN 3 ELSE -1
@@ -238,10 +252,12 @@ PeerHeaders == \E sid \in Sids, es \in BOOLEAN, eh \in BOOLEAN, k \in {"ok", "ba
 
 PeerCont == \E sid \in Sids, eh \in BOOLEAN :
   /\ "cont" \in Ops
+  /\ (WF => v.hb = sid)
   /\ LET f == Frame(T_CONT, sid, FALSE, eh, 0, -1, 1) IN Take(f, FxOf(v, f, -1, FALSE), Ev("cont", sid, 0, 0, FALSE, eh))
 
 PeerData == \E sid \in Sids, n \in {0, 1, 2}, es \in BOOLEAN :
   /\ "data" \in Ops
+  /\ (WF => WfData(sid, n, es))
   /\ LET f == Frame(T_DATA, sid, es, FALSE, 0, -1, n) IN Take(f, FxOf(v, f, -1, FALSE), Ev("data", sid, n, 0, es, FALSE))
 
 PeerRst == \E sid \in Sids :
@@ -251,6 +267,7 @@ PeerRst == \E sid \in Sids :
 PeerWU == \E sid \in Sids \cup {0}, inc \in {0, 1, 3, MaxWinM} :
   /\ "wu" \in Ops
   /\ (inc \in {0, MaxWinM} => "wubad" \in Ops)
+  /\ (WF => v.hb = 0 /\ (IF sid = 0 THEN TRUE ELSE v.s[sid].st \in {"open", "hc"}))
   /\ Take(Frame(T_WU, sid, FALSE, FALSE, inc, -1, 4), NoFx, Ev("wu", sid, inc, 0, FALSE, FALSE))
 
 PeerPrio == \E sid \in Sids, self \in BOOLEAN :
@@ -259,6 +276,7 @@ PeerPrio == \E sid \in Sids, self \in BOOLEAN :
 
 PeerSettings == \E iw \in {0, 1, InitWinM, InitWinM + 2, MaxWinM} :
   /\ "settings" \in Ops
+  /\ (WF => v.hb = 0 /\ iw < MaxWinM)
   /\ Take([Frame(T_SETTINGS, 0, FALSE, FALSE, 0, -1, 6) EXCEPT !.iw = iw], NoFx, Ev("settings", 0, iw, 0, FALSE, FALSE))
 
 PeerMisc == \E k \in {"ping", "unknown", "even", "pingsid", "data0"} :
